@@ -101,6 +101,7 @@ def run(program, res, tier):
                 else:
                     res.ok("C07-S1", f"{k.name}.replace_leaves {param}<-{sorted(fields)}", {"feeds": sorted(fed)})
     res.expect_count("C07-S1", "field/slot instances", n_inst, 40)
+    _s1c(program, model, res)
     _s1b(model, res)
     _s2(program, res)
     _s3(program, res)
@@ -121,6 +122,71 @@ def _feeds_through(model, k, callee):
                 if p1 in roots:
                     out.setdefault(p1, set()).update(k.feeds.get(p2, set()))
     return out
+
+
+def _unconditional_source_replacement(program, fnode, module, sources_expr="self.sources", depth=0):
+    """(ok, why, node): does fnode rebuild *every* source with replace_leaves(replacement_map), unconditionally?"""
+    found = []
+    for n in ast.walk(fnode):
+        if isinstance(n, (ast.ListComp, ast.GeneratorExp)) and len(n.generators) == 1 and unparse(n.generators[0].iter) == sources_expr:
+            gen = n.generators[0]
+            calls = [c for c in ast.walk(n.elt) if isinstance(c, ast.Call) and isinstance(c.func, ast.Attribute) and c.func.attr == "replace_leaves"]
+            if not calls:
+                continue
+            if gen.ifs:
+                return False, f"sources are filtered by `{unparse(gen.ifs[0])[:60]}` before being rebuilt", n
+            if isinstance(n.elt, ast.IfExp):
+                names = {x.id for x in ast.walk(n.elt.test) if isinstance(x, ast.Name)}
+                if isinstance(gen.target, ast.Name) and gen.target.id not in names:
+                    found.append(n)  # the condition does not look at the source (e.g. an empty replacement map): every source is treated alike
+                    continue
+                return False, f"whether a source is rebuilt depends on the source itself: `{unparse(n.elt)[:90]}`", n
+            if not (isinstance(n.elt, ast.Call) and n.elt is calls[0] and isinstance(n.elt.func.value, ast.Name)
+                    and isinstance(gen.target, ast.Name) and n.elt.func.value.id == gen.target.id):
+                return False, f"a source is rebuilt only conditionally: `{unparse(n.elt)[:90]}`", n
+            found.append(n)
+    if found:
+        return True, "", found[0]
+    # indexed form: self.sources[i].replace_leaves(...)
+    idx = [c for c in ast.walk(fnode) if isinstance(c, ast.Call) and isinstance(c.func, ast.Attribute) and c.func.attr == "replace_leaves"
+           and unparse(c.func.value).startswith(sources_expr + "[")]
+    if idx:
+        return True, "", idx[0]
+    # helper taking the sources
+    if depth < 2:
+        for c in ast.walk(fnode):
+            if isinstance(c, ast.Call) and any(unparse(a) == sources_expr for a in list(c.args) + [k.value for k in c.keywords]):
+                callee = None
+                if isinstance(c.func, ast.Name) and c.func.id in module.functions:
+                    callee = module.functions[c.func.id].node
+                if callee is None:
+                    continue
+                params = [a.arg for a in callee.args.args]
+                pos = [i for i, a in enumerate(c.args) if unparse(a) == sources_expr]
+                pname = params[pos[0]] if pos and pos[0] < len(params) else next((k.arg for k in c.keywords if unparse(k.value) == sources_expr), None)
+                if pname is None:
+                    continue
+                ok, why, node = _unconditional_source_replacement(program, callee, module, sources_expr=pname, depth=depth + 1)
+                return ok, (why + f" (in helper {callee.name})" if why else ""), node if ok else c
+    return False, "no expression rebuilds the sources with replace_leaves", fnode
+
+
+def _s1c(program, model, res):
+    n = 0
+    for k in model.kinds.values():
+        rl = k.cls.methods.get("replace_leaves")
+        if rl is None or k.name in ("TableDescription", "SQLNode"):
+            continue
+        n += 1
+        res.analysed(rl)
+        ok, why, node = _unconditional_source_replacement(program, rl.node, rl.module)
+        if ok:
+            res.ok("C07-S1", f"{k.name}.replace_leaves rebuilds every source with replace_leaves(replacement_map), unconditionally")
+        else:
+            res.fail_at("C07-S1", rl, f"sources-not-all-replaced:{k.name}",
+                        f"{k.name}.replace_leaves: {why}: a leaf (table or SQL view) below a skipped source keeps its old definition, so the composed pipeline "
+                        f"is not `b` applied to the result of `a`", node)
+    res.expect_count("C07-S1", "non-leaf replace_leaves methods", n, 11)
 
 
 def _s1b(model, res):
